@@ -66,7 +66,7 @@ def main():
             viol = [l for l in o.splitlines() if ' VIOLATION at ' in l]
             brk = [l for l in o.splitlines() if 'ANALYSIS-BROKEN' in l]
             return p, r, viol, brk
-        with ThreadPoolExecutor(max_workers=6) as ex:
+        with ThreadPoolExecutor(max_workers=14) as ex:
             for p, r, viol, brk in ex.map(one, props):
                 results[p] = {'exit': r, 'violations': [v.strip()[:300] for v in viol][:6], 'broken': [b[:300] for b in brk][:3]}
     finally:
